@@ -4,6 +4,7 @@ package main
 // violated while no existing rule looked at it.
 
 import (
+	"go/ast"
 	"fmt"
 	"go/token"
 	"go/types"
@@ -1521,4 +1522,438 @@ func growsOnly(v ssa.Value, fv *types.Var, stack []*ssa.Call, depth int, seen ma
 		return n > 0
 	}
 	return false
+}
+
+// ruleDecimalDivision (D-DIVZERO): a decimal division (Div, DivRound, QuoRem, Mod and their variants panic on a
+// zero divisor - nothing in the server recovers) is only reached behind a test of the divisor (IsZero, Sign,
+// Cmp, Equal, ...), in the function or, the divisor being a parameter, at every call site.  The census has no
+// floor: the current tree does not divide decimals at all.
+func ruleDecimalDivision(c *Ctx) {
+	cg := cgView{c}
+	isDiv := map[string]bool{"Div": true, "DivRound": true, "QuoRem": true, "Mod": true, "DivRoundBank": true}
+	isTest := map[string]bool{"IsZero": true, "Sign": true, "Cmp": true, "Equal": true, "Equals": true, "IsPositive": true, "IsNegative": true, "GreaterThan": true, "LessThan": true, "GreaterThanOrEqual": true, "LessThanOrEqual": true}
+	roots := func(v ssa.Value) map[ssa.Value]bool {
+		out := map[ssa.Value]bool{}
+		isDec := func(t types.Type) bool {
+			if pt, ok := t.Underlying().(*types.Pointer); ok {
+				t = pt.Elem()
+			}
+			return types.TypeString(t, nil) == decimalPkg+".Decimal"
+		}
+		for w := range backSlice(v) {
+			switch w.(type) {
+			case *ssa.FieldAddr, *ssa.Parameter, *ssa.Field:
+				if isDec(w.Type()) {
+					out[w] = true // the decimal itself, not the structure it sits in
+				}
+			}
+		}
+		return out
+	}
+	var tested func(b *ssa.BasicBlock, div ssa.Value, depth int) bool
+	tested = func(b *ssa.BasicBlock, div ssa.Value, depth int) bool {
+		dr := roots(div)
+		for _, cc := range controlCondsPol(b) {
+			for w := range backSlice(cc.Cond) {
+				call, ok := w.(*ssa.Call)
+				if !ok {
+					continue
+				}
+				cal := call.Call.StaticCallee()
+				if cal == nil || cal.Pkg == nil || cal.Pkg.Pkg.Path() != decimalPkg || !isTest[cal.Name()] || len(call.Call.Args) == 0 {
+					continue
+				}
+				for r := range roots(call.Call.Args[0]) {
+					if dr[r] {
+						return true
+					}
+					for d := range dr {
+						if fa, ok := r.(*ssa.FieldAddr); ok {
+							if fb, ok := d.(*ssa.FieldAddr); ok && sameAddr(fa, fb, 0) {
+								return true
+							}
+						}
+					}
+				}
+			}
+		}
+		// the divisor comes in through a parameter: every call site tests it
+		f := b.Parent()
+		if depth < 2 {
+			for p := range dr {
+				prm, ok := p.(*ssa.Parameter)
+				if !ok || prm.Parent() != f {
+					continue
+				}
+				sites := cg.callersOf(f)
+				if len(sites) == 0 {
+					continue
+				}
+				all := true
+				for _, site := range sites {
+					for i, q := range f.Params {
+						if q == prm && i < len(site.Common().Args) {
+							if !tested(site.Block(), site.Common().Args[i], depth+1) {
+								all = false
+							}
+						}
+					}
+				}
+				if all {
+					return true
+				}
+			}
+		}
+		return false
+	}
+	n := 0
+	for _, f := range c.P.ModuleFuncs() {
+		for _, b := range f.Blocks {
+			for _, ins := range b.Instrs {
+				call, ok := ins.(*ssa.Call)
+				if !ok {
+					continue
+				}
+				cal := call.Call.StaticCallee()
+				if cal == nil || cal.Pkg == nil || cal.Pkg.Pkg.Path() != decimalPkg || !isDiv[cal.Name()] || len(call.Call.Args) < 2 {
+					continue
+				}
+				n++
+				c.check(tested(b, call.Call.Args[1], 0), "D-DIVZERO", funcName(f), "decimal "+cal.Name()+" behind a test of its divisor", call.Pos(),
+					"the division is only reached after the divisor was tested",
+					"a decimal "+cal.Name()+" is reached without a test of its divisor: a zero quantity (`0 AAA @@ 5 USD`) makes it panic with 'decimal division by 0', and nothing in the server recovers - the process dies")
+			}
+		}
+	}
+	c.census("D-DIVZERO", "decimal divisions in module code", n, 0)
+}
+
+// ruleAllSitesOfPosting (T9-ALL): a commodity can occur up to three times in one posting (amount, cost, balance
+// assertion).  Where the reference collector walks over the commodities of a posting, a match does not end the
+// walk: the loop over them has no `return` and no `break`, and a function that looks at the sites one after the
+// other does not return between them.  (One location per posting is right for accounts, not for commodities:
+// `10 EUR = 110 EUR` names EUR twice, and rename must change both.)
+func ruleAllSitesOfPosting(c *Ctx) {
+	fd := commodityReferenceCollector(c.P)
+	if fd == nil {
+		c.undecided("T9-ALL", "server", "commodity reference collector", token.NoPos, "function not found")
+		return
+	}
+	pk := c.P.pkgOf[fd]
+	// the collector, the functions of its package it calls (two levels), function literals included
+	region := []*ast.FuncDecl{fd}
+	seen := map[*ast.FuncDecl]bool{fd: true}
+	for i := 0; i < len(region) && i < 12; i++ {
+		info := c.P.InfoFor(region[i])
+		ast.Inspect(region[i].Body, func(n ast.Node) bool {
+			if call, ok := n.(*ast.CallExpr); ok {
+				if o, ok := calleeOf(info, call).(*types.Func); ok {
+					if d := c.P.declOf[o]; d != nil && d.Body != nil && c.P.pkgOf[d] == pk && !seen[d] {
+						seen[d] = true
+						region = append(region, d)
+					}
+				}
+			}
+			return true
+		})
+	}
+	isCommodityList := func(t types.Type) bool {
+		sl, ok := t.Underlying().(*types.Slice)
+		if !ok {
+			return false
+		}
+		et := sl.Elem()
+		if pt, ok := et.Underlying().(*types.Pointer); ok {
+			et = pt.Elem()
+		}
+		return typeHasSuffix(et, "ast.Commodity") || typeHasSuffix(et, "ast.Amount")
+	}
+	n := 0
+	for _, d := range region {
+		info := c.P.InfoFor(d)
+		ast.Inspect(d.Body, func(x ast.Node) bool {
+			rs, ok := x.(*ast.RangeStmt)
+			if !ok {
+				return true
+			}
+			t := info.TypeOf(rs.X)
+			if t == nil || !isCommodityList(t) {
+				return true
+			}
+			n++
+			exit := token.NoPos
+			var walk func(node ast.Node, inInner bool)
+			walk = func(node ast.Node, inInner bool) {
+				ast.Inspect(node, func(y ast.Node) bool {
+					switch s := y.(type) {
+					case *ast.FuncLit:
+						return false
+					case *ast.ReturnStmt:
+						exit = s.Pos()
+					case *ast.BranchStmt:
+						if s.Tok == token.BREAK && !inInner && s.Label == nil {
+							exit = s.Pos()
+						}
+						if s.Tok == token.BREAK && s.Label != nil {
+							exit = s.Pos()
+						}
+					case *ast.ForStmt, *ast.RangeStmt, *ast.SwitchStmt, *ast.TypeSwitchStmt, *ast.SelectStmt:
+						if y != node {
+							var body *ast.BlockStmt
+							switch z := y.(type) {
+							case *ast.ForStmt:
+								body = z.Body
+							case *ast.RangeStmt:
+								body = z.Body
+							case *ast.SwitchStmt:
+								body = z.Body
+							case *ast.TypeSwitchStmt:
+								body = z.Body
+							case *ast.SelectStmt:
+								body = z.Body
+							}
+							walk(body, true)
+							return false
+						}
+					}
+					return true
+				})
+			}
+			walk(rs.Body, false)
+			c.check(exit == token.NoPos, "T9-ALL", c.P.declName(d), "every commodity of a posting is looked at", rs.Pos(),
+				"the walk over the posting's commodities runs to its end",
+				"the walk over the commodities of a posting stops at the first match ("+c.P.pos(exit)+"): a commodity that occurs twice in one posting (amount and balance assertion, amount and cost) is found once - references miss the second occurrence and rename leaves it with the old name")
+			return true
+		})
+	}
+	c.census("T9-ALL", "walks over the commodities of a posting in the reference collector", n, 0)
+}
+
+// ruleTreeReadOnly (AST-RO): the syntax tree is read-only for everything that consumes it.  Outside the parser,
+// no `append` uses as its destination a re-slice (`x[:0]`, `x[:n]`) of a slice that is stored in a syntax-tree
+// node (tx.Postings, journal.Transactions, ...) - directly or received through parameters: such an append
+// overwrites the node's elements in place, and every later reader of the same transaction (the undeclared
+// checks after the balance check, the next request) sees postings duplicated or missing.
+func ruleTreeReadOnly(c *Ctx) {
+	cg := cgView{c}
+	isASTField := func(v ssa.Value) string {
+		ld, ok := v.(*ssa.UnOp)
+		if !ok || ld.Op != token.MUL {
+			return ""
+		}
+		fa, ok := ld.X.(*ssa.FieldAddr)
+		if !ok {
+			return ""
+		}
+		bt := fa.X.Type().Underlying().(*types.Pointer).Elem()
+		if !strings.Contains(types.TypeString(bt, nil), "/internal/ast.") {
+			return ""
+		}
+		return shortQual(types.TypeString(bt, nil)) + "." + fieldVarOfAddr(fa).Name()
+	}
+	var origin func(v ssa.Value, f *ssa.Function, depth int, seen map[ssa.Value]bool) string
+	origin = func(v ssa.Value, f *ssa.Function, depth int, seen map[ssa.Value]bool) string {
+		if v == nil || seen[v] || depth > 4 {
+			return ""
+		}
+		seen[v] = true
+		if w := isASTField(v); w != "" {
+			return w
+		}
+		switch x := v.(type) {
+		case *ssa.Slice:
+			return origin(x.X, f, depth, seen)
+		case *ssa.Phi:
+			for _, e := range x.Edges {
+				if w := origin(e, f, depth, seen); w != "" {
+					return w
+				}
+			}
+		case *ssa.ChangeType:
+			return origin(x.X, f, depth, seen)
+		case *ssa.Field:
+			if strings.Contains(types.TypeString(x.X.Type(), nil), "/internal/ast.") {
+				if st, ok := x.X.Type().Underlying().(*types.Struct); ok {
+					return shortQual(types.TypeString(x.X.Type(), nil)) + "." + st.Field(x.Field).Name()
+				}
+			}
+		case *ssa.Parameter:
+			for _, site := range cg.callersOf(x.Parent()) {
+				for i, q := range x.Parent().Params {
+					if q == x && i < len(site.Common().Args) {
+						if w := origin(site.Common().Args[i], site.Parent(), depth+1, seen); w != "" {
+							return w
+						}
+					}
+				}
+			}
+		case *ssa.UnOp:
+			if al, ok := x.X.(*ssa.Alloc); ok && x.Op == token.MUL {
+				for _, r := range *al.Referrers() {
+					if st, ok := r.(*ssa.Store); ok && st.Addr == ssa.Value(al) {
+						if w := origin(st.Val, f, depth, seen); w != "" {
+							return w
+						}
+					}
+				}
+			}
+		}
+		return ""
+	}
+	n := 0
+	for _, f := range c.P.ModuleFuncs() {
+		top := f
+		for top.Parent() != nil {
+			top = top.Parent()
+		}
+		if top.Pkg == nil || strings.HasSuffix(top.Pkg.Pkg.Path(), "/parser") || strings.HasSuffix(top.Pkg.Pkg.Path(), "/ast") {
+			continue
+		}
+		for _, b := range f.Blocks {
+			for _, ins := range b.Instrs {
+				call, ok := ins.(*ssa.Call)
+				if !ok {
+					continue
+				}
+				bi, ok := call.Call.Value.(*ssa.Builtin)
+				if !ok || bi.Name() != "append" || len(call.Call.Args) == 0 {
+					continue
+				}
+				// the destination, through the loop-carried variable, back to a re-slice
+				var reslice *ssa.Slice
+				seenD := map[ssa.Value]bool{}
+				var find func(v ssa.Value, depth int)
+				find = func(v ssa.Value, depth int) {
+					if v == nil || seenD[v] || depth > 4 || reslice != nil {
+						return
+					}
+					seenD[v] = true
+					switch x := v.(type) {
+					case *ssa.Slice:
+						if _, isArr := x.X.Type().Underlying().(*types.Pointer); !isArr {
+							reslice = x
+						}
+					case *ssa.Phi:
+						for _, e := range x.Edges {
+							find(e, depth+1)
+						}
+					case *ssa.Call:
+						if b2, ok := x.Call.Value.(*ssa.Builtin); ok && b2.Name() == "append" && len(x.Call.Args) > 0 {
+							find(x.Call.Args[0], depth+1)
+						}
+					}
+				}
+				find(call.Call.Args[0], 0)
+				if reslice == nil {
+					continue
+				}
+				n++
+				w := origin(reslice.X, f, 0, map[ssa.Value]bool{})
+				c.check(w == "", "AST-RO", funcName(f), "no append into the storage of a syntax-tree slice", call.Pos(),
+					"the re-sliced destination is not a slice held by a syntax-tree node",
+					"an append writes into a re-slice of "+w+" (the syntax tree's own storage): the node's elements are overwritten in place, so later readers of the same node - the checks that run after this one, the next request - see elements duplicated or missing")
+			}
+		}
+	}
+	c.census("AST-RO", "appends into a re-slice outside the parser", n, 0)
+}
+
+// ruleWorkspaceReadsDisk (C12-DISK): the workspace's incremental update path (everything but Initialize) takes
+// the text of a file from its caller or from disk - never through the include loader's per-file parse cache.
+// The cache is invalidated by the server when a document changes; a file that was rewritten while it was not
+// part of the tree is not invalidated on that path, so a cached parse that the update path picks up later can
+// be older than the file: the incremental view then differs from a rebuild.
+func ruleWorkspaceReadsDisk(c *Ctx) {
+	wpk := c.P.SSAPkg("internal/workspace")
+	ci := buildConc(c)
+	readsCache := func(root *ssa.Function) bool {
+		for g := range Reach(ci.g, []*ssa.Function{root}, true) {
+			for _, b := range g.Blocks {
+				for _, ins := range b.Instrs {
+					if lk, ok := ins.(*ssa.Lookup); ok {
+						if ld, ok := lk.X.(*ssa.UnOp); ok {
+							if fa, ok := ld.X.(*ssa.FieldAddr); ok && typeHasSuffix(fa.X.Type().Underlying().(*types.Pointer).Elem(), "include.Loader") {
+								if _, isMap := lk.X.Type().Underlying().(*types.Map); isMap {
+									return true
+								}
+							}
+						}
+					}
+				}
+			}
+		}
+		return false
+	}
+	n := 0
+	for _, f := range c.P.ModuleFuncs() {
+		top := f
+		for top.Parent() != nil {
+			top = top.Parent()
+		}
+		if top.Pkg != wpk || ci.initFns[top] {
+			continue
+		}
+		for _, b := range f.Blocks {
+			for _, ins := range b.Instrs {
+				call, ok := ins.(*ssa.Call)
+				if !ok {
+					continue
+				}
+				cal := call.Call.StaticCallee()
+				if cal == nil || cal.Signature.Recv() == nil || !typeHasSuffix(cal.Signature.Recv().Type(), "include.Loader") {
+					continue
+				}
+				// a full load of the tree (the result is a resolved tree) is the rebuild itself
+				fullLoad := false
+				for i := 0; i < cal.Signature.Results().Len(); i++ {
+					if typeHasSuffix(cal.Signature.Results().At(i).Type(), "include.ResolvedJournal") {
+						fullLoad = true
+					}
+				}
+				if fullLoad {
+					continue
+				}
+				n++
+				c.check(!readsCache(cal), "C12-DISK", funcName(f), "the update path does not read through the loader's parse cache", call.Pos(),
+					"the loader method called here does not look a file up in the per-file cache",
+					"the workspace's update path obtains a file through "+funcName(cal)+", which answers from the include loader's parse cache: a file that was rewritten while it was not part of the tree is not invalidated there, so the workspace indexes an older text than the one on disk and its view differs from a rebuild")
+			}
+		}
+	}
+	c.census("C12-DISK", "loader calls on the workspace's update path", n, 0)
+}
+
+// ruleAnalysisFromAnalyzer (I-SOURCE): what completion (and every other feature) reads as "the analysis" of the
+// journals is produced by the analyzer from the syntax trees.  An analyzer.AnalysisResult is only ever
+// constructed inside package analyzer; assembling one elsewhere (from the workspace index, from a cache) feeds the
+// features from a source with a different notion of what exists - the index lists names by use, so accounts and
+// commodities that are only declared are never offered.
+func ruleAnalysisFromAnalyzer(c *Ctx) {
+	n := 0
+	for _, f := range c.P.ModuleFuncs() {
+		top := f
+		for top.Parent() != nil {
+			top = top.Parent()
+		}
+		inAnalyzer := top.Pkg != nil && strings.HasSuffix(top.Pkg.Pkg.Path(), "/internal/analyzer")
+		for _, b := range f.Blocks {
+			for _, ins := range b.Instrs {
+				al, ok := ins.(*ssa.Alloc)
+				if !ok || !typeHasSuffix(al.Type().Underlying().(*types.Pointer).Elem(), "analyzer.AnalysisResult") {
+					continue
+				}
+				// a construction: some field is stored
+				stores := map[string][]ssa.Value{}
+				collectFieldStores(al, "", stores, 0)
+				if len(stores) == 0 {
+					continue
+				}
+				n++
+				c.check(inAnalyzer, "I-SOURCE", funcName(f), "analysis results are produced by the analyzer", al.Pos(),
+					"constructed in package analyzer",
+					"an analyzer.AnalysisResult is assembled outside the analyzer: the features that read it (completion candidates and their counts) no longer see what the analyzer derives from the syntax trees - names that are declared but not yet used are missing")
+			}
+		}
+	}
+	c.census("I-SOURCE", "constructions of an analysis result", n, 1)
 }
